@@ -214,7 +214,12 @@ def run_oracle_resilient(ops, tag="o", timeout=1800):
     """Like run_oracle but restarts after an op that kills the process."""
     res = []
     rest = list(ops)
+    deaths = 0
     while rest:
+        if deaths >= 25:
+            # the implementation keeps crashing: enough evidence, do not grind through the rest
+            res.extend({"not_run": True} for _ in rest)
+            break
         part = run_oracle(rest, tag, timeout)
         cut = None
         for i, a in enumerate(part):
@@ -226,6 +231,7 @@ def run_oracle_resilient(ops, tag="o", timeout=1800):
             break
         res.extend(part[:cut + 1])
         rest = rest[cut + 1:]
+        deaths += 1
     return res
 
 
